@@ -1,9 +1,69 @@
+import SwayVerif.Model.Toposort
 import SwayVerif.Driver.Util
-/-! Driver for C22 (stub — replace `answer`; keep `run`). -/
+/-!
+Driver for C22. Case: `graph <n> <edges>` — edges in `add_edge` order, comma separated,
+`a-b` = library dependency, `a~b` = contract dependency (a depends on b), `.` = no edges.
+Implementation result: `ok <order, comma separated | .>` | `err` (dependency cycle detected) |
+`errother` | `panic`.
+-/
 namespace SwayVerif.Driver.C22
-open SwayVerif.Driver
+open SwayVerif.Toposort SwayVerif.Driver
 
-def answer (_line : String) : String := "unimplemented agree=0 prop=0"
+def parseEdge? (t : String) : Option (Nat × Nat × Bool) :=
+  let contract := t.toList.contains '~'
+  match t.split (fun c => c == '-' || c == '~') |>.toList.map (·.toString) with
+  | [a, b] => do
+    let a ← a.toNat?; let b ← b.toNat?
+    pure (a, b, contract)
+  | _ => none
+
+def parseList? {α} (f : String → Option α) (s : String) : Option (List α) :=
+  if s = "." then some [] else
+  (s.splitOn ",").foldr (fun t acc => match acc, f t with
+    | some l, some x => some (x :: l)
+    | _, _ => none) (some [])
+
+def showList (l : List Nat) : String :=
+  if l.isEmpty then "." else ",".intercalate (l.map toString)
+
+def showRes : Res → String
+  | .ok o => s!"ok {showList o}"
+  | .cycle => "err"
+  | .panic => "panic"
+  | .fuel => "fuel"
+
+def sizeClass (n : Nat) : String :=
+  if n ≤ 1 then "1" else if n ≤ 5 then "2-5" else if n ≤ 15 then "6-15" else "16+"
+
+def edgeClass (n : Nat) : String :=
+  if n = 0 then "0" else if n ≤ 10 then "1-10" else if n ≤ 50 then "11-50" else "51+"
+
+def answer (line : String) : String :=
+  let (c, i) := splitCase line
+  let parsed : Option (PkgGraph × List Bool) := match c with
+    | ["graph", n, es] => do
+        let n ← n.toNat?
+        let es ← parseList? parseEdge? es
+        pure (⟨n, es.map fun e => (e.1, e.2.1)⟩, es.map (·.2.2))
+    | _ => none
+  -- `some (some impl)` = ok/err, `some none` = an answer the property never allows (panic / other error)
+  let impl : Option (Option Impl) := match i with
+    | ["ok", o] => (parseList? String.toNat? o).map (fun l => some (some l))
+    | ["err"] => some (some none)
+    | ["errother"] => some none
+    | ["panic"] => some none
+    | _ => none
+  match parsed, impl with
+  | some (g, kinds), some impl =>
+    let m := compilationOrder g
+    let (agree, prop) := match impl with
+      | some (some o) => (decide (m = .ok o), propHolds g (some o))
+      | some none => (decide (m = .cycle), propHolds g none)
+      | none => (false, false)
+    let self := g.edges.any fun e => e.1 == e.2
+    let par := !(g.edges.eraseDups.length == g.edges.length)
+    s!"{showRes m} agree={b01 agree} prop={b01 prop} cyc={b01 (hasCycle g)} nodes={sizeClass g.n} edges={edgeClass g.edges.length} self={b01 self} par={b01 par} contract={b01 (kinds.any id)}"
+  | _, _ => "bad-op agree=0 prop=0"
 
 def run : IO Unit := do
   lineLoop (← IO.getStdin) (← IO.getStdout) answer
